@@ -6,7 +6,9 @@ Correspondence: the Lean model of `psbt.combine` / `_unsigned_tx` / `to_v0` / `t
    fields partitioned over k <= 5 copies, ALL permutations x ALL bracketings for small k (sampled above);
  * conflicting partitions, foreign versions / transactions (the malformed stream);
  * single-field tamperings of a signer's answer.
-Oracles on the real code alone: equal serialisation / equal object over every order and bracketing, every pair of
+Oracles on the real code alone: equal serialisation / equal object over every order and bracketing (families whose
+required lock times are partitioned: every flat order alike, accepted groupings equal the flat result; that a grouping is
+refused half way is the ONE keyed finding combine.locktime-partition.grouping), every pair of
 every operand kept, operands' serialisations unchanged and no shared mutable object after every role, identity
 (tx.id / unique_id) preserved by sign / finalize / to_v0 / to_v2 over role sequences of length <= 6,
 `assert_signatures_only` refuses every single-field tampering.
@@ -241,18 +243,22 @@ def vendored():
     return res
 
 
-def built(rng, version):
-    """a signable psbt built here: p2wpkh inputs with known keys (role sequences, tamperings)."""
+def built(rng, version, taproot=None):
+    """a signable psbt built here: p2wpkh inputs (and, half of the time, a key-path p2tr one) with known keys."""
+    taproot = rng.random() < 0.5 if taproot is None else taproot
     n_in = rng.randrange(1, 4)
     vin, ins = [], []
     for i in range(n_in):
         prv = PRV[i % len(PRV)]
         pk = _pub(prv)
-        spk = ScriptPubKey.p2wpkh(pk)
         vin.append(TxIn(OutPoint(common.rand_bytes(rng, 32), rng.randrange(3)), b"",
                         rng.choice([0xFFFFFFFF, 0xFFFFFFFD, 0, 5])))
-        pin = PsbtIn(witness_utxo=TxOut(50_000 + i, spk),
-                     hd_key_paths={pk: BIP32KeyOrigin(b"\xaa\xbb\xcc\xdd", f"m/84h/0h/0h/0/{i}")})
+        if taproot and i == 0:       # a key-path taproot input: schnorr signing, taproot finalizing
+            pin = PsbtIn(witness_utxo=TxOut(50_000 + i, ScriptPubKey.p2tr(pk)), taproot_internal_key=pk[1:],
+                         taproot_hd_key_paths={pk[1:]: ([], BIP32KeyOrigin(b"\xaa\xbb\xcc\xdd", f"m/86h/0h/0h/0/{i}"))})
+        else:
+            pin = PsbtIn(witness_utxo=TxOut(50_000 + i, ScriptPubKey.p2wpkh(pk)),
+                         hd_key_paths={pk: BIP32KeyOrigin(b"\xaa\xbb\xcc\xdd", f"m/84h/0h/0h/0/{i}")})
         ins.append(pin)
     vout = [TxOut(10_000 + j, ScriptPubKey.p2wpkh(_pub(PRV[(j + 2) % len(PRV)]))) for j in range(rng.randrange(1, 3))]
     tx = Tx(2, rng.choice([0, 0, 650_000, 1_700_000_000]), vin, vout)
@@ -274,11 +280,16 @@ class KM:
         k = self.by_pub.get(pub_key)
         return None if k is None else dsa.sign_(msg_hash, k).serialize()
 
-    def sign_schnorr(self, *a):
-        return None
+    def sign_schnorr(self, pub_key, origin, msg_hash, merkle_root):
+        from btclib.ecc import ssa
+        from btclib.script.taproot import output_prvkey_from_merkle_root
+        k = {p[1:]: v for p, v in self.by_pub.items()}.get(pub_key)
+        return None if k is None else ssa.sign_(msg_hash, output_prvkey_from_merkle_root(k, merkle_root)).serialize()
 
-    def sign_schnorr_script_path(self, *a):
-        return None
+    def sign_schnorr_script_path(self, pub_key, origin, msg_hash, leaf_hash):
+        from btclib.ecc import ssa
+        k = {p[1:]: v for p, v in self.by_pub.items()}.get(pub_key)
+        return None if k is None else ssa.sign_(msg_hash, k).serialize()
 
 
 def seeds(rng):
@@ -505,7 +516,7 @@ def _o_roles(w):
             else:
                 return False, f"unknown role {role}"
         except BTClibValueError as e:
-            if role == "finalize" and "missing signatures" in str(e):
+            if role == "finalize" and ("missing signatures" in str(e) or "missing taproot signature" in str(e)):
                 continue
             return False, f"{role} raised {e}"
         except Exception as e:  # noqa: BLE001
@@ -634,6 +645,8 @@ def _run_role(role, arg, ps):
         return request_signatures(StubSigner(*arg), ps[0])
     if role == "software_signer":
         return StubSigner("full", arg).sign_psbt(ps[0])
+    if role == "join":
+        return M.join(ps, False, False, False, False)
     raise ValueError(role)
 
 
@@ -879,6 +892,62 @@ def _o_lock_grouping(w):
 
 
 ORACLES.update({"combine.orders-lockpart": _o_orders_lock, "finding.locktime-grouping": _o_lock_grouping})
+
+
+def _o_accounting(w):
+    """new_signers / assert_signed agree with what a signer really added (anchors: new_signers, assert_signed)."""
+    d = unpayload(w["payload"])
+    req, keys = d["request"], d["keys"]
+    ans = sign(req, KM(keys))[0]
+    added = any(len(a.partial_sigs) > len(r.partial_sigs) or (a.taproot_key_spend_signature and not
+                r.taproot_key_spend_signature) for r, a in zip(req.inputs, ans.inputs))
+    before = (req.serialize(), ans.serialize())
+    try:
+        who = M.new_signers(req, ans)
+    except Exception as e:  # noqa: BLE001
+        return False, f"new_signers raised {type(e).__name__}: {e}"
+    if bool(who) != added or not who <= {b"\xaa\xbb\xcc\xdd"}:
+        return False, f"new_signers={[x.hex() for x in who]} although signatures added={added}"
+    if M.new_signers(req, req):
+        return False, "new_signers(request, request) names a signer"
+    full = sign(req, KM(PRV))[0]
+    try:
+        M.assert_signed(full)
+        M.assert_signed(ans, allow_partial=True) if added else None
+    except Exception as e:  # noqa: BLE001
+        return False, f"assert_signed refused a signed psbt: {e}"
+    unsigned = all(not i.partial_sigs and not i.taproot_key_spend_signature for i in req.inputs)
+    if unsigned:
+        try:
+            M.assert_signed(req)
+            return False, "assert_signed accepted an unsigned psbt"
+        except BTClibValueError:
+            pass
+    bad = deepcopy(full)
+    changed = False
+    for x in bad.inputs:
+        for k in list(x.partial_sigs):
+            sg = x.partial_sigs[k]
+            x.partial_sigs[k] = sg[:-3] + bytes([sg[-3] ^ 1]) + sg[-2:]
+            changed = True
+            break
+    if changed:
+        try:
+            bad.assert_valid()
+        except BTClibValueError:
+            changed = False          # not a well-formed signature any more: assert_valid's business
+    if changed:
+        try:
+            M.assert_signed(bad)
+            return False, "assert_signed accepted a corrupted signature"
+        except BTClibValueError:
+            pass
+    if (req.serialize(), ans.serialize()) != before:
+        return False, "new_signers / assert_signed modified an argument"
+    return True, f"signers {[x.hex() for x in who]}"
+
+
+ORACLES.update({"signer.accounting": _o_accounting})
 
 
 # ------------------------------------------------------------------ streams
@@ -1135,6 +1204,14 @@ def run(ctx):
                  ("request_signatures", ("partial", rng.sample(PRV, 1)), [p]),
                  ("request_signatures", ("full", list(PRV)), [p]),
                  ("request_signatures", ("echo",), [sign(p, KM(PRV))[0]])]
+        other = built(rng, p.version, taproot=False)
+        if p.version == 2:
+            p3, other = deepcopy(p), deepcopy(other)
+            p3.tx_modifiable = other.tx_modifiable = 3
+            cases.append(("join", None, [p3, other]))
+        else:
+            cases.append(("join", None, [p, other]))
+        ctx.check("signer.accounting", {"payload": payload({"request": p, "keys": rng.sample(PRV, rng.randrange(0, 4))})})
         for role, arg, ps in cases:
             ctx.count("fresh", role + _a(arg))
             ctx.check("roles.fresh", {"payload": payload({"role": role, "arg": arg, "psbts": ps}),
